@@ -201,6 +201,8 @@ def r_order(r, prog):
         for fld in fields:
             cs = [c for c in g.calls() if c.name() in ('visit_with', 'into_iter') and re.search(r'\.%s\b' % fld, _normalise_accessors(prog, g, c))]
             if not cs:
+                cs = [c for c in g.calls() if c.name() in ('call_mut', 'call', 'call_once') and len(c.args) > 1 and re.search(r'\.%s\b' % fld, vexpr(g, c.args[1], depth=24))]
+            if not cs:
                 r.finding('order-anchor:%s.%s' % (owner, fld), g.span, '%s.%s is not traversed' % (owner, fld))
                 break
             firsts.append(cs)
@@ -215,6 +217,22 @@ def r_order(r, prog):
                 r.finding('visit-order:%s' % owner, g.span, '%s: %s is not visited before %s on every path' % (owner, fields[0], fields[1]))
     r.floor(3)
 
+
+
+def _descends_when_written_here(prog, t):
+    """the local closure of TypeRef::visit_with recurses into its argument exactly when the argument's span lies inside the span of the
+    reference being visited (same file, start >=, end <=): nested types written here are presented, those of an alias are not"""
+    import guards as _g
+    cls = [f for f in prog.fns.values() if f.path.startswith(t.path + '::{closure')]
+    if len(cls) != 1:
+        return False
+    f = cls[0]
+    rec = [c for c in f.calls() if c.name() == 'visit_with' and c.resolved == t.path and not f.blocks[c.bb].get('cleanup')]
+    if len(rec) != 1 or vexpr(f, rec[0].args[0]) != 'arg2':
+        return False
+    gs = _g.guard_set(prog, f, rec[0].bb)
+    pat = lambda op, fld: any(re.match(r'^%s\(tuple\(span\(arg2\),span\(arg1\.0\)\)\.0\.%s,tuple\(span\(arg2\),span\(arg1\.0\)\)\.1\.%s\)$' % (op, fld, fld), g) for g in gs)
+    return len(gs) == 3 and pat('eq', 'file') and pat('ge', 'start') and pat('le', 'end')
 
 def r_typeref(r, prog):
     vfs = visit_fns(prog)
@@ -249,8 +267,13 @@ def r_typeref(r, prog):
         tgt = arm(sw, vi)
         for fld in trf:
             cs = [c for c in t.calls() if c.name() == 'visit_with' and c.resolved == t.path and vexpr(t, c.args[0], depth=24).endswith('.' + fld) and c.bb in t.reachable(tgt)]
+            # ... or through the local closure that descends when the nested reference is written inside this one
+            via = [c for c in t.calls() if c.name() in ('call_mut', 'call', 'call_once') and (c.resolved or '').startswith(t.path + '::{closure') and len(c.args) > 1
+                   and re.search(r'\.%s\)?$' % fld, vexpr(t, c.args[1], depth=24)) and c.bb in t.reachable(tgt)]
             if len(cs) == 1 and must_pass(t, tgt, rets, [cs[0].bb]):
                 r.ok('Types::%s: direct recursion into %s' % (v['n'], fld))
+            elif len(via) == 1 and must_pass(t, tgt, rets, [via[0].bb]) and _descends_when_written_here(prog, t):
+                r.ok('Types::%s: recursion into %s where it is written inside the reference being visited' % (v['n'], fld))
             else:
                 r.finding('nested-type-not-visited:%s.%s' % (v['n'], fld), t.span, 'TypeRef::visit_with does not recurse exactly once into %s of %s on every path' % (fld, v['n']))
     q = [c for c in t.calls() if c.name() in ('push_back', 'pop_front', 'push', 'pop', 'push_front', 'pop_back', 'extend')]
